@@ -16,7 +16,7 @@ PROPS = {"C05": dict(
           "closed in between; clients are goroutines on one store object, goroutines on separate store objects/connections, or separate OS "
           "processes (test binary re-executed, kept in a pool, store opened and closed per job), all stamped with raw CLOCK_MONOTONIC; a fresh store object finally reads everything back. "
           "non-trivial = the recorded history has >= 2 mutating operations on one log ID whose invoke/return intervals overlap and of which "
-          ">= 1 failed its precondition; distinct = hash of the canonical case descriptor (backend, mode, ids, preseed, all scripts); also: writers also share two values per log ID (equal bytes from different clients, ABA) with an ABA-aware oracle"),
+          ">= 1 failed its precondition; distinct = hash of the canonical case descriptor (backend, mode, ids, preseed, all scripts); also: writers also share two values per log ID (equal bytes from different clients, ABA) with an ABA-aware oracle; the DynamoDB fake evaluates condition expressions (attribute_exists/attribute_not_exists, =, <>, AND, OR, NOT, #names, :values); unknown syntax ends a case without a verdict"),
     assumptions=[
         "porcupine v1.3.0 decides linearizability of the recorded history correctly",
         "the DynamoDB and S3/Tigris fakes encode the documented service semantics (ConditionExpression, ConsistentRead, If-Match, "
